@@ -4,13 +4,13 @@ go 1.24.0
 
 require (
 	github.com/azihsoyn/rijndael256 v0.0.0-20200316065338-d14eefa2b66b
+	github.com/sirupsen/logrus v1.9.3
 	github.com/spali/go-rscp v0.0.0-00010101000000-000000000000
+	github.com/spali/go-slicereader v0.0.0-20201122145524-8e262e1a5127
 )
 
 require (
 	github.com/cstockton/go-conv v1.0.0 // indirect
-	github.com/sirupsen/logrus v1.9.3 // indirect
-	github.com/spali/go-slicereader v0.0.0-20201122145524-8e262e1a5127 // indirect
 	golang.org/x/sys v0.16.0 // indirect
 )
 
